@@ -249,17 +249,19 @@ func c21Check(c c21Case, res *batch.Result, run runFunc, r *ev.Recorder) *Failur
 			continue
 		}
 		// Known finding: a node reported for an empty range sits at the next token; when that is
-		// the end of its parent's range the tree builder attaches it to an outer node. Such
-		// sentences are attributed to the finding (see known_findings.txt).
+		// the end of its parent's range the tree builder attaches it to an outer node, and when a
+		// node reported later starts there the builder makes it a child of that node. Sentences
+		// with an empty node on the boundary of another node are attributed to the finding (see
+		// known_findings.txt).
 		var evs []egEvent
 		g.events(dn, &evs)
 		emptyAtEnd := false
-		for _, e := range evs {
+		for i, e := range evs {
 			if e.Lo != e.Hi {
 				continue
 			}
-			for _, o := range evs {
-				if o.Lo < e.Lo && o.Hi == e.Lo {
+			for j, o := range evs {
+				if o.Lo < e.Lo && o.Hi == e.Lo || j > i && o.Lo == e.Lo && o.Hi > e.Lo {
 					emptyAtEnd = true
 				}
 			}
@@ -289,7 +291,7 @@ func c21Check(c c21Case, res *batch.Result, run runFunc, r *ev.Recorder) *Failur
 		}
 		parsed++
 		if emptyAtEnd {
-			r.Class("sentence-with-empty-node-at-end-of-parent")
+			r.Class("sentence-with-empty-node-on-a-boundary")
 		}
 		var nodes, calls, lists, optP, optA, ifaces, depth int
 		fmt.Sscanf(f[1], "nodes=%d calls=%d lists=%d optPresent=%d optAbsent=%d ifaces=%d depth=%d", &nodes, &calls, &lists, &optP, &optA, &ifaces, &depth)
@@ -305,7 +307,7 @@ func c21Check(c c21Case, res *batch.Result, run runFunc, r *ev.Recorder) *Failur
 			first := strings.SplitN(f[2], ";;", 2)[0]
 			key := strings.SplitN(first, ":", 2)[0]
 			if emptyAtEnd {
-				key = "empty-node-at-end-of-parent"
+				key = "empty-node-on-boundary"
 			}
 			return failf(key, "%s; %s", strings.ReplaceAll(f[2], ";;", " | "), where)
 		}
